@@ -52,6 +52,7 @@ Arrivals ==
   [t : {"piece"}, m : Msgs, k : 1..3] \cup [t : {"wrongtotal"}, m : Msgs, k : 1..3]
   \cup [t : {"zero", "nzero", "beyond", "foreign", "stranger", "garbage", "whole"}, m : {"M"}, k : {1}]
   \cup [t : {"otherformat"}, m : {"M"}, k : {1, 3}]
+  \cup [t : {"badtag"}, m : {"M"}, k : {2, 3}]
   \cup [t : {"errormsg", "query", "nested"}, m : {"M"}, k : {1}]
 
 VARIABLES k, n,      \* reassembly context: index and total (0, 0 = empty)
@@ -81,7 +82,9 @@ Arrive(a) ==
   /\ count' = count + 1
   /\ path' = IF Export THEN Append(path, a) ELSE path
   /\ bound0' = bound0
-  /\ CASE a.t \in {"foreign", "garbage", "otherformat", "errormsg"} -> UNCHANGED <<k, n, buf, processed, bound>>
+  \* "badtag": the piece of M that would come next, under a sender tag (k = 2) or receiver tag (k = 3) below 0x100:
+  \* a malformed message, refused whoever sent it
+  /\ CASE a.t \in {"foreign", "garbage", "otherformat", "errormsg", "badtag"} -> UNCHANGED <<k, n, buf, processed, bound>>
        \* an OTR error message in between is handed to the user and leaves the reassembly alone; any other
        \* whole message (a text, a query) ends it
        \* a complete one-piece fragment of the peer's whose payload again begins like a fragment (and is not a
